@@ -3,10 +3,10 @@
    inductives.  Compiled from the root of the development, so the products land next to this file. *)
 Require Import ExtrOcamlBasic ExtrOcamlString.
 Require Import Fsic.Base.PyBase Fsic.Parser.PyStr Fsic.Parser.Symbols Fsic.Parser.ParseEq Fsic.Parser.ParseModel
-               Fsic.Build.Classify Fsic.Build.BuildDef.
+               Fsic.Build.Classify Fsic.Build.BuildDef Fsic.Build.BuildRoutes.
 Extraction Language OCaml.
 Extraction "Extract/Build/build_model.ml"
   parse_model_nocheck class_of c_names default_range default_opts
   build_def conv_default conv_code conv_wrap conv_count conv_empty conv_broken
   py_repr_str py_repr_names format_named indent default_converter
-  type_name string_of_Z py_int.
+  type_name string_of_Z py_int exec_M.
